@@ -199,7 +199,15 @@ def c09_streams(tier, rng):
         Stream("random", "adapt", gens.rand_adapt(rng, kinds, n), adapt_nontriv, False,
                "%d seeded random histories of 3..30 events (source diffs, batches, limit changes, single polls, drains, end of source/limit stream) over scripted streams" % n,
                adapt_hist, oracles=orc),
+        adapt_big_stream(kinds, tier, rng, orc),
     ]
+
+
+def adapt_big_stream(kinds, tier, rng, orc, **kw):
+    n = 200 if tier == "quick" else 8000
+    return Stream("random-big", "adapt", gens.rand_adapt(rng, kinds, n, maxev=14, big=True, **kw), adapt_nontriv, False,
+                  "%d seeded random histories on sources of 60..200 items, limits / counts up to 260, appends of up to 70 items" % n,
+                  adapt_hist, oracles=orc)
 
 
 def c10_streams(tier, rng):
@@ -216,6 +224,7 @@ def c10_streams(tier, rng):
                adapt_hist, oracles=orc),
         Stream("random", "adapt", gens.rand_adapt(rng, ("filter", "filter_map"), n), adapt_nontriv, False,
                "%d seeded random histories of 3..30 events, random 8-bit pass mask" % n, adapt_hist, oracles=orc),
+        adapt_big_stream(("filter", "filter_map"), tier, rng, orc),
     ]
 
 
@@ -234,6 +243,7 @@ def c11_streams(tier, rng):
                adapt_hist, oracles=orc),
         Stream("random", "adapt", gens.rand_adapt(rng, ("sort", "sort_by", "sort_by_key"), n), adapt_nontriv, False,
                "%d seeded random histories of 3..30 events; items key*10+uid, all distinct" % n, adapt_hist, oracles=orc),
+        adapt_big_stream(("sort", "sort_by", "sort_by_key"), tier, rng, orc),
     ]
 
 
@@ -459,6 +469,10 @@ def ovec_streams(kind, orc, project=None):
                              ovec_hist, oracles=orc, project=project))
         st.append(Stream("random", "ovec", gens.ovec_random(rng, n, lagbias=(kind in ("c06", "c08"))), ovec_nontriv, False,
                          "%d seeded random histories of 3..60 operations: all mutators (5%% out of range), entry traversals, transactions with rollbacks, up to 4 subscribers of both flavours created and dropped at any time, polls and drains, capacities 1..16%s" % (n, ", low poll rates" if kind in ("c06", "c08") else ""),
+                         ovec_hist, oracles=orc, project=project))
+        nb = 150 if q else 6000
+        st.append(Stream("random-big", "ovec", gens.ovec_random(rng, nb, maxops=25, big=True), ovec_nontriv, False,
+                         "%d seeded random histories on vectors of 70..200 items (appends of up to 70, capacities 3..64): sizes beyond imbl's chunk size and beyond every small-scope bound" % nb,
                          ovec_hist, oracles=orc, project=project))
         return st
     return f
